@@ -30,10 +30,16 @@ def shards(tier):
         {"name": "accounting-nostyle", "mode": "acct", "use_style": False, "examples": n},
         {"name": "scoring-comparison", "mode": "score", "audit_type": "CARD_COMPARISON", "examples": m},
         {"name": "scoring-oneaudit", "mode": "score", "audit_type": "ONEAUDIT", "examples": m},
+        {"name": "sampled-phantoms", "mode": "formats", "examples": m},
     ]
 
 
 def strategy(shard):
+    if shard["mode"] == "formats":
+        return st.fixed_dictionaries({"mode": st.just("formats"), "vendor": st.sampled_from(["dominion", "hart"]),
+                                      "sizes": st.lists(st.integers(0, 4), min_size=1, max_size=4).filter(lambda s: sum(s) > 0),
+                                      "nph": st.integers(1, 5), "order": st.randoms(use_true_random=False).map(lambda r: r.random()),
+                                      "take": st.floats(0.3, 1.0)})
     if shard["mode"] == "score":
         return sa.scenario(n_contests=(1, 2), audit_types=(shard["audit_type"],), n_cards=(3, 20)).map(lambda s: {"mode": "score", "scn": s})
 
@@ -66,6 +72,50 @@ def evaluate(case, out):
     from shangrla.core.Audit import Assertion, Audit, Contest, CVR
     from shangrla.core.NonnegMean import NonnegMean
 
+    if case["mode"] == "formats":
+        # every sampled phantom card gets a phantom manual record (vendor lookups), whatever else is in the sample
+        import random
+
+        import pandas as pd
+        from shangrla.formats.Dominion import Dominion
+        from shangrla.formats.Hart import Hart
+
+        dom = case["vendor"] == "dominion"
+        V = Dominion if dom else Hart
+        sizes, nph = case["sizes"], case["nph"]
+        total = sum(sizes)
+        out.cls("formats", case["vendor"])
+        if dom:
+            df = pd.DataFrame([{"Tray #": 1, "Tabulator Number": 10 + i, "Batch Number": 100 + i, "Total Ballots": s, "VBMCart.Cart number": 7}
+                               for i, s in enumerate(sizes)])
+        else:
+            df = pd.DataFrame([{"Container": "b", "Tabulator": 10 + i, "Batch Name": 100 + i, "Number of Ballots": s} for i, s in enumerate(sizes)])
+        try:
+            man, _, ph = V.prep_manifest(df, total + nph, total)
+            cvrs = []
+            for i, s in enumerate(sizes):
+                for p in range(1, s + 1):
+                    cvrs.append(CVR(id=(f"{10 + i}-{100 + i}-{p}" if dom else f"{100 + i}_{p}"), card_in_batch=p, votes={}))
+            cvrs += [CVR(id=f"phantom-1-{j + 1}", votes={}, phantom=True) for j in range(nph)]
+            rng = random.Random(case["order"])
+            idx = list(range(len(cvrs)))
+            rng.shuffle(idx)
+            idx = idx[: max(1, int(len(idx) * case["take"]))]
+            _, _, cs, mvr_ph = V.sample_from_cvrs(cvrs, man, np.array(idx))
+            lo = 1 if dom else 0
+            nums = list(range(lo, lo + total + nph))
+            rng.shuffle(nums)
+            cards, order, mvr_ph2 = V.sample_from_manifest(man, nums)
+        except Exception as e:  # noqa
+            out.lib_exception("formats", e)
+            return
+        want = sorted(cvrs[i].id for i in idx if cvrs[i].phantom)
+        out.expect(sorted(m.id for m in mvr_ph) == want and all(m.phantom for m in mvr_ph), "sampled-phantom-cvr-without-phantom-mvr",
+                   lambda: ([m.id for m in mvr_ph], want))
+        out.expect(len(mvr_ph2) == nph and len({m.id for m in mvr_ph2}) == nph and all(m.phantom for m in mvr_ph2),
+                   "phantom-batch-cards-without-phantom-mvr", lambda: ([m.id for m in mvr_ph2], nph))
+        out.nontrivial = len(want) >= 2
+        return
     if case["mode"] == "acct":
         us = case["use_style"]
         out.cls("style" if us else "nostyle")
